@@ -133,4 +133,20 @@ def recoverError (v : Variant) (e : ErrChain) : Option (Except St HMap) :=
 status' metadata -/
 def clientUnaryErrorMetadata (respmd stmd : HMap) : HMap := HMap.extend stmd (responseWire respmd)
 
+/-! ### dimension audit additions (aC08) -/
+
+/-- `client_streaming`, success path: `if let Some(trailers) = body.trailers().await? { parts.merge(trailers) }`
+— `merge` is `HeaderMap::extend`: every name of the trailers *replaces* that name in the response
+headers.  (`clientUnaryMetadata respmd` is the case `trailers = okTrailers`.)  A tonic handler
+produces such trailers by ending its response stream with `Err(Status::ok(..))` carrying metadata;
+other gRPC servers have an API for it. -/
+def clientUnaryOkMetadata (respmd trailers : HMap) : HMap := HMap.extend (responseWire respmd) trailers
+
+/-- `Request::set_timeout`: `self.metadata_mut().insert("grpc-timeout", value)` -/
+def setTimeout (value : Bytes) (md : HMap) : HMap := HMap.insert (HMap.name "grpc-timeout") value md
+
+/-- `MetadataMap::merge` (crate-private; `HeaderMap::extend`): used for response headers + OK
+trailers, status metadata + response headers, request headers + request trailers -/
+def merge (into other : HMap) : HMap := HMap.extend into other
+
 end Metadata
